@@ -38,6 +38,8 @@ SEEDS = [
     ("{a: [1, 2]}", "a[distinct()]"), ("{a: [[1], [1]]}", "a[unique()]"), ("[null, null]", "[max()]"),
     ("{a: null}", "a[.^x]"), ("[]", "[.=1]"), ("{}", "**"), ("{}", "*"), ("[[]]", "**.a"),
     ('[[{b: 1, 0: [{id: "5"}, null]}], {}]', "/[-2:4][-6:5][0][distinct(id)]"),
+    ('{a: ["{[1]: 2}", b]}', "a[.=x]"), ("{a: [x, b]}", "a[.={[1]:2}]"), ("{a: ['{[]}', '(1,)', '[1, 2']}", "a[.>1]"),
+    ('{a: ["' + "1" + "+1" * 5000 + '", b]}', "a[.=x]"), ("[a, b]", "[.=" + "1" + "+1" * 5000 + "]"),
 ]
 
 
